@@ -241,6 +241,7 @@ Init == /\ tid \in 1..Len(Traces)
         /\ ok = TRUE
 
 PrevDig(t, k) == IF k = 1 THEN Traces[t].init.dig ELSE Traces[t].ev[k - 1].obs.dig
+PrevDigR(t, k) == IF k = 1 THEN Traces[t].init.digr ELSE Traces[t].ev[k - 1].obs.digr
 
 Next ==
   /\ l <= Len(Traces[tid].ev)
@@ -249,7 +250,10 @@ Next ==
   /\ LET e == Traces[tid].ev[l]
          o == e.obs
          sf == StructFails(o)
-         stutter == (IF e.res # "ok" /\ e.op.k # "load" /\ o.dig # PrevDig(tid, l) THEN {"stutter"} ELSE {})
+         \* while orphan placeholders exist (outside the claim) a refused call is compared on the
+         \* part of the observation that does not involve placeholders
+         changed == IF ok /\ st.orph THEN o.digr # PrevDigR(tid, l) ELSE o.dig # PrevDig(tid, l)
+         stutter == (IF e.res # "ok" /\ e.op.k # "load" /\ changed THEN {"stutter"} ELSE {})
                     \* C10: a read-only call leaves the whole observation unchanged and
                     \* answers the same when repeated (and as it did earlier in this state)
                     \cup (IF e.op.k = "query" /\ o.dig # PrevDig(tid, l) THEN {"query-changed"} ELSE {})
